@@ -112,6 +112,8 @@ LINKS = {
 LINKS["partial"] = dict(resname=None, atoms={"BB": {"resname": "A"}, "+BB": {"resname": "C"}},
                         inter={"bonds": [I(["BB", "+BB"], ["1", "0.37", "7000"])],
                                "angles": [I(["SA", "BB", "+BB"], ["2", "125", "25"]), I(["BB", "+BB", "+SC1"], ["2", "135", "35"])]})
+# explicit exclusion defined by a link (third residue), no edge of its own
+LINKS["exl"] = dict(resname=["A", "B", "C", "D"], inter={"exclusions": [I(["BB", "++BB"], [])]})
 # replace combined with a veto: the attribute may only change where the link really applies
 LINKS["startpatch"] = dict(resname=["A", "B", "C", "D"], atoms={"BB": {"replace": {"charge": 0.9}}},
                            inter={"constraints": [I(["BB", "+BB"], ["1", "0.43"], {"edge": False})]},
